@@ -22,6 +22,8 @@
 //             the dump, for the certification of the used entries; children: values for
 //             the side to move AFTER the move, clock already updated; <w> of a child only for the
 //             listed moves, '-' otherwise)   |  ERR text
+//   request   C CLASS FEN         number of legal moves: "C <n>"
+//   request   D CLASS FEN         distance to mate only: "D <dtm>"
 //   request   B CLASS n FEN       does the side to move mate (DTM-won) / is it mated (DTM-lost)
 //                                 within n plies under the rule: "B 1" | "B 0" | "B ?"
 //   values    <dtm>: W<k> (side to move mates in k plies)  L<k> (is mated in k plies)  D
@@ -35,8 +37,8 @@
 //                                          "found type score evalScore" | "none"
 //             Q ply | FEN                  TranspositionTable::probeDTM(pos, ply): "score" | "none"
 //             N alpha beta ply depth | FEN a fresh Search runs negaScout(alpha,beta,ply,depth) with
-//                                          minProbeDepth 1 on the shared table: "score eval" and,
-//                                          with TEXEL_VERIF_TRACE set, the H3 records of its nodes
+//                                          minProbeDepth 1 on the shared table: "score"  ("skip" if
+//                                          the hash table already holds an entry for the position)
 //             E FEN                        static evaluation eval.evalPos() of the position
 #include <algorithm>
 #include <cstdio>
@@ -414,11 +416,24 @@ static int run(const std::string& dir) {
         fen.erase(0, fen.find_first_not_of(' '));
         const ClassDump* d = getDump(cls);
         Board b; std::string err;
-        if (op != "O" && op != "B") { std::cout << "ERR unknown request\n"; std::cout.flush(); continue; }
+        if (op != "O" && op != "B" && op != "C" && op != "D") { std::cout << "ERR unknown request\n"; std::cout.flush(); continue; }
         if (!d) { std::cout << "ERR no dump for class " << cls << "\n"; std::cout.flush(); continue; }
         if (!parseFen(fen, b, err)) { std::cout << "ERR " << err << "\n"; std::cout.flush(); continue; }
         if (kingSq(b, true) < 0 || kingSq(b, false) < 0 || indexOf(*d, b) < 0) {
             std::cout << "ERR position is not of class " << cls << "\n"; std::cout.flush(); continue;
+        }
+        if (op == "D") {            // distance to mate only
+            bool ill = attacked(b, kingSq(b, !b.wtm), b.wtm);
+            std::cout << "D " << (ill ? std::string("I") : show(dtmOf(*d, b))) << "\n";
+            std::cout.flush();
+            continue;
+        }
+        if (op == "C") {            // number of legal moves (planning: roots without moves are not searched)
+            std::vector<Mv> ms0;
+            legalMoves(b, ms0);
+            std::cout << "C " << ms0.size() << "\n";
+            std::cout.flush();
+            continue;
         }
         if (memoWdl.size() > 8000000) memoWdl.clear();
         const char* be = std::getenv("C13_ORACLE_BUDGET");
@@ -535,6 +550,11 @@ static int run() {
                     std::cout << eval.evalPos() << '\n';
                 } else {
                     int a, b, ply, depth; as >> a >> b >> ply >> depth;
+                    {   // a table entry of an earlier request could cut the node off before the probe
+                        TranspositionTable::TTEntry e0;
+                        tt.probe(pos.historyHash(), e0);
+                        if (e0.getType() != TType::T_EMPTY) { std::cout << "skip\n"; std::cout.flush(); continue; }
+                    }
                     if (!et) et = Evaluate::getEvalHashTables();
                     Search::SearchTables st(comm.getCTT(), kt, ht, *et);
                     std::vector<U64> hist(SearchConst::MAX_SEARCH_DEPTH * 4 + 16);
